@@ -210,3 +210,132 @@ Proof.
   - unfold enter. destruct (L <? d + 1); reflexivity.
   - reflexivity.
 Qed.
+
+(* ---- a cycle of local thunks, for every length and every limit ---- *)
+Arguments N.leb : simpl never.
+Arguments N.of_nat : simpl never.
+
+(* the cells of the cycle program while thunks 0..i-1 are in progress *)
+Definition cyc_cells (n i : nat) : list cell :=
+  repeat CInProgress i ++ map (fun e => cell_of e None) (cycle_locs_from (N.of_nat i) (n - i)).
+
+Lemma cycle_locs_length : forall m i, length (cycle_locs_from i m) = S m.
+Proof. induction m as [|m IH]; intros i; cbn [cycle_locs_from length]; [reflexivity | rewrite IH; reflexivity]. Qed.
+
+Lemma cyc_cells_length : forall n i, (i <= n)%nat -> length (cyc_cells n i) = S n.
+Proof.
+  intros n i H. unfold cyc_cells. rewrite app_length, repeat_length, map_length, cycle_locs_length. lia.
+Qed.
+
+Definition cyc_target (n i : nat) : N := if (i <? n)%nat then N.of_nat i + 1 else 0.
+
+Lemma cyc_cells_nth : forall n i, (i <= n)%nat ->
+  nth_error (cyc_cells n i) i = Some (CPending (ELoc (cyc_target n i)) None).
+Proof.
+  intros n i H. unfold cyc_cells, cyc_target.
+  rewrite nth_error_app2 by (rewrite repeat_length; lia). rewrite repeat_length, Nat.sub_diag.
+  destruct (n - i)%nat as [|m] eqn:E; cbn [cycle_locs_from map nth_error cell_of].
+  - assert (i = n) by lia. subst. rewrite Nat.ltb_irrefl. reflexivity.
+  - assert (Hlt : (i <? n)%nat = true) by (apply Nat.ltb_lt; lia). rewrite Hlt. reflexivity.
+Qed.
+
+Lemma set_nth_app_r : forall A (l1 l2 : list A) x, 
+  set_nth (l1 ++ l2) (length l1) x = l1 ++ set_nth l2 0 x.
+Proof.
+  induction l1 as [|y l1 IH]; intros l2 x; cbn [app length set_nth].
+  - reflexivity.
+  - destruct (l1 ++ l2) eqn:E.
+    + destruct l1; destruct l2; try discriminate. cbn. reflexivity.
+    + rewrite <- E. rewrite IH. reflexivity.
+Qed.
+
+Lemma repeat_snoc : forall A (x : A) k, repeat x k ++ [x] = repeat x (S k).
+Proof. induction k as [|k IH]; cbn [repeat app]; [reflexivity | rewrite IH; reflexivity]. Qed.
+
+Lemma cyc_cells_set : forall n i, (i < n)%nat ->
+  set_nth (cyc_cells n i) i CInProgress = cyc_cells n (S i).
+Proof.
+  intros n i H. unfold cyc_cells.
+  pose proof (set_nth_app_r _ (repeat CInProgress i) (map (fun e => cell_of e None) (cycle_locs_from (N.of_nat i) (n - i))) CInProgress) as Hs.
+  rewrite repeat_length in Hs. rewrite Hs. clear Hs.
+  destruct (n - i)%nat as [|m] eqn:E; [lia|].
+  cbn [cycle_locs_from map set_nth].
+  replace (n - S i)%nat with m by lia.
+  rewrite <- repeat_snoc, <- app_assoc. cbn [app].
+  replace (N.of_nat (S i)) with (N.of_nat i + 1) by lia. reflexivity.
+Qed.
+
+Lemma nth_error_set_nth_other : forall A (l : list A) i j x, i <> j ->
+  nth_error (set_nth l i x) j = nth_error l j.
+Proof.
+  induction l as [|y l IH]; intros i j x H; cbn [set_nth]; [destruct i; reflexivity|].
+  destruct i as [|i]; destruct j as [|j]; cbn [nth_error]; try reflexivity; try contradiction.
+  apply IH. lia.
+Qed.
+
+Lemma set_nth_length : forall A (l : list A) i x, length (set_nth l i x) = length l.
+Proof.
+  induction l as [|y l IH]; intros i x; cbn [set_nth]; [destruct i; reflexivity|].
+  destruct i; cbn [length]; [reflexivity | rewrite IH; reflexivity].
+Qed.
+
+Lemma cyc_last_zero : forall n,
+  nth_error (set_nth (cyc_cells n n) n CInProgress) 0 = Some CInProgress.
+Proof.
+  intros n. destruct n as [|n].
+  - reflexivity.
+  - rewrite nth_error_set_nth_other by lia. unfold cyc_cells. cbn [repeat app nth_error]. reflexivity.
+Qed.
+
+Lemma nthN_of_nat : forall A (l : list A) k, (k < length l)%nat ->
+  nthN l (N.of_nat k) = nth_error l k.
+Proof.
+  intros A l k H. unfold nthN.
+  destruct (N.of_nat (length l) <=? N.of_nat k) eqn:E.
+  - apply N.leb_le in E. lia.
+  - rewrite Nnat.Nat2N.id. reflexivity.
+Qed.
+
+Lemma cycle_force : forall n L m i fuel pk, (i + m = n)%nat -> (2 * m + 4 <= fuel)%nat ->
+  run [] L fuel (N.of_nat i) {| cells := cyc_cells n i; peak := pk |} (KForce true (N.of_nat i)) =
+    if N.of_nat n + 2 <=? L then Err InfiniteRecursion else Err StackOverflow.
+Proof.
+  intros n L. induction m as [|m IH]; intros i fuel pk Him Hf.
+  - (* i = n: the last thunk refers back to thunk 0 *)
+    assert (i = n) by lia. subst i.
+    destruct fuel as [|[|[|f]]]; try lia. cbn [run cells].
+    rewrite nthN_of_nat by (rewrite cyc_cells_length; lia).
+    rewrite cyc_cells_nth by lia. unfold cyc_target. rewrite Nat.ltb_irrefl.
+    destruct (enter_cases L (N.of_nat n) {| cells := cyc_cells n n; peak := pk |}) as [[E Hd]|[E Hd]]; rewrite E; cbn [obind].
+    + destruct (N.of_nat n + 2 <=? L) eqn:E2; [apply N.leb_le in E2; lia | reflexivity].
+    + unfold set_cell. cbn [cells peak]. rewrite Nnat.Nat2N.id.
+      change 0 with (N.of_nat 0).
+      rewrite nthN_of_nat by (rewrite set_nth_length, cyc_cells_length; lia).
+      rewrite cyc_last_zero.
+      unfold enter. cbn [cells peak].
+      destruct (L <? N.of_nat n + 1 + 1) eqn:E3; cbn [obind].
+      * apply N.ltb_lt in E3. destruct (N.of_nat n + 2 <=? L) eqn:E2; [apply N.leb_le in E2; lia | reflexivity].
+      * apply N.ltb_ge in E3. destruct (N.of_nat n + 2 <=? L) eqn:E2; [reflexivity | apply N.leb_gt in E2; lia].
+  - assert (Hlt : (i < n)%nat) by lia.
+    destruct fuel as [|[|f]]; try lia. cbn [run cells].
+    rewrite nthN_of_nat by (rewrite cyc_cells_length; lia).
+    rewrite cyc_cells_nth by lia. unfold cyc_target.
+    assert (Hb : (i <? n)%nat = true) by (apply Nat.ltb_lt; lia). rewrite Hb.
+    destruct (enter_cases L (N.of_nat i) {| cells := cyc_cells n i; peak := pk |}) as [[E Hd]|[E Hd]]; rewrite E; cbn [obind].
+    + destruct (N.of_nat n + 2 <=? L) eqn:E2; [apply N.leb_le in E2; lia | reflexivity].
+    + unfold set_cell. cbn [cells peak]. rewrite Nnat.Nat2N.id. rewrite cyc_cells_set by lia.
+      replace (N.of_nat i + 1) with (N.of_nat (S i)) by lia.
+      rewrite (IH (S i) f) by lia. destruct (N.of_nat n + 2 <=? L); reflexivity.
+Qed.
+
+Theorem cycle_detected : forall n L fuel, (2 * n + 6 <= fuel)%nat ->
+  top (cycle_program n) L fuel =
+    if N.of_nat n + 2 <=? L then Err InfiniteRecursion else Err StackOverflow.
+Proof.
+  intros n L fuel Hf. unfold top, cycle_program, init_store. cbn [funs locs main].
+  destruct fuel as [|f]; [lia|]. cbn [run].
+  pose proof (cycle_force n L n 0 f 0 ltac:(lia) ltac:(lia)) as Hc.
+  unfold cyc_cells in Hc. cbn [repeat app] in Hc. rewrite Nat.sub_0_r in Hc.
+  change (N.of_nat 0) with 0 in Hc. rewrite Hc.
+  destruct (N.of_nat n + 2 <=? L); reflexivity.
+Qed.
